@@ -171,7 +171,7 @@ Proof.
   - discriminate.
   - destruct f; cbn; discriminate.
   - destruct (_ && _); discriminate.
-  - destruct (d_buf d); discriminate.
+  - destruct (_ || _); discriminate.
 Qed.
 
 Lemma after_none_no_panic (d : dec) : fst (after_none d) <> Panic.
@@ -223,7 +223,7 @@ Proof.
     all: try (intros H; injection H as <- <- <- <-; econstructor; eassumption).
     all: pose proof (poll_frame_no_panic AEnd d1) as NF.
     all: destruct (poll_frame AEnd d1) as [| |d2|d2|st d2] eqn:PF; try congruence.
-    all: try (cbn in PF; destruct (d_buf d1); discriminate).
+    all: try (cbn in PF; destruct (_ || _); discriminate).
     all: try (destruct (after_none d2) as [r0 d3] eqn:AN; intros H; injection H as <- <- <- <-;
               eapply P_end_none; eassumption).
     all: intros H; injection H as <- <- <- <-; eapply P_end_err; eassumption.
@@ -802,8 +802,12 @@ Proof.
   - destruct (_ && _); [|discriminate]. intros H; injection H as <-. repeat split. right. eauto.
 Qed.
 
-Lemma poll_frame_end_none (d1 d2 : dec) : poll_frame AEnd d1 = FNone d2 -> d2 = d1 /\ d_buf d1 = [].
-Proof. cbn. destruct (d_buf d1); [|discriminate]. intros H; injection H as <-. auto. Qed.
+Lemma poll_frame_end_none (d1 d2 : dec) : poll_frame AEnd d1 = FNone d2 ->
+  d2 = d1 /\ d_buf d1 = [] /\ forall c l, d_state d1 <> ReadBody c l.
+Proof.
+  cbn. destruct (d_buf d1); [|discriminate]. destruct (d_state d1); cbn; try discriminate;
+    intros H; injection H as <-; repeat split; discriminate.
+Qed.
 
 Lemma after_none_effect (d : dec) r d3 : after_none d = (r, d3) ->
   d_encoding d3 = d_encoding d /\
@@ -923,7 +927,7 @@ Proof.
   - (* P_end_err *)
     exists []. split; [reflexivity|]. cbn [data_of map concat]. rewrite app_nil_r.
     destruct (knone_inv _ _ _ _ _ _ I H H0) as (I1 & NE1 & SC).
-    apply (Inv_dead e0 d1); auto. cbn in H1. destruct (d_buf d1); [discriminate|].
+    apply (Inv_dead e0 d1); auto. cbn in H1. destruct (_ || _); [|discriminate].
     injection H1 as _ <-. reflexivity.
   - (* P_pending *)
     apply poll_frame_pending in H1 as ->.
@@ -1269,7 +1273,7 @@ Definition J (d : dec) (evs : list bev) (fs : list (N * list N)) (ms : list msg)
   non_error d /\ wf d /\ d_encoding d = e0 /\ limit_of d = lim /\ d_dir d = dir0 /\
   d_trailers d = tr0 /\ rest d ++ data_of evs = concat (map raw fs) /\ Forall2 (good lim e0) fs ms.
 
-Lemma rest_nil (d : dec) : non_error d -> rest d = [] -> d_buf d = [].
+Lemma rest_nil (d : dec) : non_error d -> rest d = [] -> d_buf d = [] /\ d_state d = ReadHeader.
 Proof.
   unfold non_error, rest. destruct (d_state d); [auto|discriminate|intros []].
 Qed.
@@ -1278,7 +1282,7 @@ Lemma J_step (d : dec) evs fs ms : J d evs fs ms ->
   (exists f m fs' ms' d', fs = f :: fs' /\ ms = m :: ms' /\ decode_chunk d = KItem m d' /\
                            J d' evs fs' ms') \/
   (exists d1, decode_chunk d = KNone d1 /\ J d1 evs fs ms /\
-              (data_of evs = [] -> fs = [] /\ ms = [] /\ d_buf d1 = [])).
+              (data_of evs = [] -> fs = [] /\ ms = [] /\ d_buf d1 = [] /\ d_state d1 = ReadHeader)).
 Proof.
   intros (NE & W & E & L & Dr & T & EQ & G).
   destruct G as [|[fl p] m fs' ms' G0 G].
@@ -1292,7 +1296,7 @@ Proof.
     + split; [exact NE1|]. split; [exact W1|]. split; [congruence|]. split; [exact L1|].
       split; [congruence|]. split; [congruence|].
       split; [rewrite R1, R, Dn; reflexivity | constructor].
-    + intros _. repeat split. apply rest_nil; [exact NE1|congruence].
+    + intros _. split; [reflexivity|]. split; [reflexivity|]. apply rest_nil; [exact NE1|congruence].
   - cbn [map concat] in EQ.
     destruct (spec_step_valid lim e0 _ _ fl p m _ EQ G0) as (HO & Hneed & Hmsg).
     pose proof (decode_chunk_spec d W NE HO) as SP. rewrite E, L in SP.
@@ -1346,10 +1350,10 @@ Proof.
   - (* no data left in the script *)
     destruct (J_step _ _ _ _ Jd) as [(f & m & fs' & ms' & d' & -> & -> & DC & J')|(d1 & DC & J1 & Hn)].
     + eapply PO_item with (evs1 := []); eauto. apply poll_next_kitem; [apply Jd|exact DC].
-    + destruct (Hn eq_refl) as (-> & -> & B1).
+    + destruct (Hn eq_refl) as (-> & -> & B1 & S1).
       destruct J1 as (NE1 & _ & _ & _ & Dr1 & T1 & _).
       destruct TERM as [[Ht RO]|(t & Ht & RO)].
-      * eapply PO_done; auto. rewrite Ht. cbn [app]. rewrite (poll_next_knone_nil _ _ _ (proj1 Jd) DC). cbn [poll_frame]. rewrite B1.
+      * eapply PO_done; auto. rewrite Ht. cbn [app]. rewrite (poll_next_knone_nil _ _ _ (proj1 Jd) DC). cbn [poll_frame]. rewrite B1, S1. cbn [orb].
         rewrite after_none_ok by (now rewrite Dr1, T1). reflexivity.
       * eapply PO_done; auto. rewrite Ht. cbn [app]. rewrite (poll_next_knone_cons _ _ _ _ _ (proj1 Jd) DC).
         cbn [answer_of poll_frame is_data is_trailers into_trailers].
@@ -1407,6 +1411,113 @@ Proof.
   intros dir encoding max fs ms evs term fuel G DP DE TO Hf.
   eapply drain_valid with (fs := fs); eauto.
   repeat split; auto.
+Qed.
+
+(* ============================ C07: truncation is reported =============================== *)
+Lemma read_body_none_wait (d d1 : dec) : read_body d = CNone d1 ->
+  d1 = d /\ match d_state d with ReadBody _ len => nlen (d_buf d) < len | _ => True end.
+Proof.
+  unfold Decoder.read_body. destruct (d_state d) as [|c len|]; try (intros H; injection H as <-; auto).
+  destruct (nlen (d_buf d) <? len) eqn:L; [intros H; injection H as <-; split; [reflexivity|lia]|].
+  destruct c as [e|]; [|discriminate]. destruct (decompress e _); discriminate.
+Qed.
+
+Lemma decode_chunk_none_wait (d d1 : dec) : decode_chunk d = KNone d1 ->
+  match d_state d1 with ReadBody _ len => nlen (d_buf d1) < len | _ => True end.
+Proof.
+  unfold Decoder.decode_chunk. destruct (inner_decode_chunk d) as [| |d0|p d0] eqn:IC; try discriminate.
+  2: destruct (deser p); discriminate.
+  intros H; injection H as <-. unfold Decoder.inner_decode_chunk in IC.
+  destruct (d_state d) as [|c len|] eqn:S.
+  - destruct (nlen (d_buf d) <? HEADER_SIZE) eqn:E; [injection IC as <-; now rewrite S|].
+    destruct (five_bytes _ E) as (fl & x & y & z & w & r & B). rewrite B in IC. cbn [get_u8 get_u32] in IC.
+    destruct (if fl =? 0 then _ else _) as [comp|st]; [|discriminate].
+    destruct (limit_of d <? un_be32 x y z w); [discriminate|].
+    apply read_body_none_wait in IC as [-> W]. exact W.
+  - apply read_body_none_wait in IC as [-> W]. exact W.
+  - apply read_body_none_wait in IC as [-> W]. exact W.
+Qed.
+
+Lemma Poll_done_plain e0 evs g d r d' evs' g' : Poll evs g d r d' evs' g' ->
+  forall D fs oks, r = Done -> non_error d -> only_dp evs -> Forall ev_ok evs -> Inv e0 d D fs oks ->
+  evs' = [] /\ D ++ data_of evs = concat (map raw fs).
+Proof.
+  induction 1; intros D fs oks RD NE DP EO I; try discriminate.
+  - exfalso. eapply non_error_not; eassumption.
+  - (* plain end of the body *)
+    destruct (knone_inv _ _ _ _ _ _ I H H0) as (I1 & NE1 & SC).
+    apply poll_frame_end_none in H1 as (-> & B1 & NB).
+    destruct I1 as (E & F & F2 & tail & HD & HT). destruct (HT NE1) as (T & W1 & _).
+    split; [reflexivity|]. cbn [data_of map concat]. rewrite app_nil_r, HD, T.
+    unfold rest. destruct (d_state d1) as [|c len|]; [rewrite B1; apply app_nil_r | exfalso; now apply (NB c len) | apply app_nil_r].
+  - (* a data chunk, then on *)
+    apply poll_frame_some in H1 as (b & -> & ->).
+    destruct (knone_inv _ _ _ _ _ _ I H H0) as (I1 & NE1 & SC).
+    inversion EO as [|? ? Hb EO']; subst. inversion DP as [|? ? _ DP']; subst. cbn [ev_ok] in Hb.
+    assert (I2 : Inv e0 (with_buf d1 (d_buf d1 ++ b)) (D ++ b) fs oks).
+    { destruct I1 as (E & F & F2 & tail & HD & HT). split; [exact E|]. split; [exact F|]. split; [exact F2|].
+      exists (tail ++ b). split; [now rewrite HD, <- app_assoc|]. intros _.
+      destruct (HT NE1) as (T & W & B). rewrite rest_push by exact NE1. rewrite T.
+      split; [reflexivity|]. split; [exact W|]. rewrite bytes_ok_app, <- T, B. exact Hb. }
+    assert (NE2 : non_error (with_buf d1 (d_buf d1 ++ b))) by exact NE1.
+    destruct (IHPoll _ _ _ eq_refl NE2 DP' EO' I2) as (E' & HD).
+    split; [exact E'|].
+    rewrite <- HD. unfold data_of. cbn [map concat]. now rewrite app_assoc.
+  - (* trailers / cancelled: not in a data-only script *)
+    exfalso. inversion DP as [|? ? Hev _]; subst.
+    destruct (poll_frame_none _ _ _ H1) as (_ & _ & _ & _ & _ & _ & [(t & -> & _)|(st & -> & _)]); exact Hev.
+Qed.
+
+Lemma polls_live n : forall evs g d trace d' evs' g',
+  polls n evs g d = (trace, (d', evs', g')) -> non_error d ->
+  Forall (fun r => r = Pending \/ exists m, r = Item (IOk m)) trace -> non_error d'.
+Proof.
+  induction n as [|n IH]; intros evs g d trace d' evs' g'; cbn [Decoder.polls].
+  - intros H; injection H as <- <- <- <-. auto.
+  - destruct (dec_poll evs g d) as [[[r d1] evs1] g1] eqn:P.
+    destruct (polls n evs1 g1 d1) as [tr fin] eqn:Q. intros H NE FA; injection H as <- ->.
+    inversion FA as [|? ? Hr FA']; subst. eapply IH; [exact Q| |exact FA'].
+    eapply Poll_live_after; [apply dec_poll_Poll, P|exact Hr].
+Qed.
+
+Lemma only_dp_app a b : only_dp (a ++ b) -> only_dp a /\ only_dp b.
+Proof. unfold only_dp. apply Forall_app. Qed.
+
+(* C07 dec_truncation_detected: if a body made of data chunks only (any chunking, any Pending)
+   ends plainly and the drain of a fresh stream reaches Ready(None) WITHOUT an error, then every
+   complete frame of the input was delivered, in order, and the input is exactly a whole number
+   of frames.  Contrapositive: every plain truncation inside a frame - also right after the
+   five prefix bytes, F-C07e fixed by 735d8fef - is reported as an error. *)
+Theorem dec_truncation_detected : forall fuel evs dir encoding max trace d' evs' g',
+  Forall ev_ok evs -> only_dp evs ->
+  drain fuel evs (mkB 0) (dec_new dir encoding max) = (trace, Some (d', evs', g')) ->
+  (forall st, ~ In (Item (IErr st)) trace) ->
+  evs' = [] /\
+  Forall2 (fun f m => frame_msg deser decompress encoding f = Some m)
+          (frames (data_of evs)) (oks_of trace) /\
+  data_of evs = concat (map raw (frames (data_of evs))).
+Proof.
+  intros fuel evs dir encoding max trace d' evs' g' EO DP DR NoErr.
+  destruct (drain_Some _ _ _ _ _ _ _ _ DR) as (pre & d1 & evs1 & g1 & -> & ND & PL & DPoll & _).
+  destruct (polls_inv encoding _ _ _ _ _ _ _ _ _ _ _ (Inv_new dir encoding max) EO PL) as (used & fs & E & I).
+  cbn [app] in I. subst evs.
+  apply Forall_app in EO as [_ EO1]. apply only_dp_app in DP as [_ DP1].
+  assert (NE1 : non_error d1).
+  { eapply polls_live; [exact PL | exact Logic.I |].
+    apply Forall_forall. intros r Hr.
+    pose proof (polls_no_panic (length pre) (used ++ evs1) (mkB 0) (dec_new dir encoding max)) as NP.
+    rewrite PL in NP. cbn [fst] in NP.
+    destruct r as [|[m|st]| |]; eauto.
+    - exfalso. apply (NoErr st). apply in_or_app. now left.
+    - exfalso. exact (ND Hr).
+    - exfalso. exact (NP Hr). }
+  apply dec_poll_Poll in DPoll.
+  destruct (Poll_done_plain encoding _ _ _ _ _ _ _ DPoll _ _ _ eq_refl NE1 DP1 EO1 I) as (E' & HD).
+  split; [exact E'|].
+  rewrite data_of_app, HD. destruct I as (_ & F & F2 & _).
+  pose proof (frames_raws fs [] F) as FR. rewrite app_nil_r in FR. cbn in FR. rewrite app_nil_r in FR.
+  rewrite FR, oks_of_app. cbn [oks_of flat_map]. rewrite app_nil_r.
+  split; [exact F2|reflexivity].
 Qed.
 
 (* ---------- with the round-trip laws of the message codec and the compressor ---------- *)
